@@ -49,6 +49,27 @@ func c42Targets(c *an.Ctx, v ssa.Value) []*ssa.Function {
 			f, _ = x.Fn.(*ssa.Function)
 		case *ssa.Function:
 			f = x
+		case *ssa.Extract:
+			// the function value is a result of a package-local selector function
+			if sc, ok := x.Tuple.(*ssa.Call); ok {
+				if g := an.Callee(sc).Static; g != nil && len(g.Blocks) > 0 {
+					var sub []*ssa.Function
+					for _, ret := range an.Returns(g) {
+						if x.Index < len(ret.Results) {
+							ts := c42Targets(c, ret.Results[x.Index])
+							if len(ts) == 0 {
+								return nil
+							}
+							sub = append(sub, ts...)
+						}
+					}
+					if len(sub) == 0 {
+						return nil
+					}
+					out = append(out, sub...)
+					continue
+				}
+			}
 		}
 		if f == nil {
 			return nil
@@ -275,15 +296,26 @@ func c42ServerPipelines(c *an.Ctx, roles map[*ssa.Function]map[int]string) []c42
 				if limIdx < 0 {
 					continue
 				}
+				// a pair = one alternative of the selection: handler, cap value, and the function/site where
+				// the selection is decided (the dispatcher itself, or a package-local selector function
+				// returning (handler, cap) whose media-type parameter receives the negotiated type)
 				type pair struct {
-					h   *ssa.Function
-					lim ssa.Value
-					blk *ssa.BasicBlock
+					h    *ssa.Function
+					lim  ssa.Value
+					fn   *ssa.Function   // where the alternative is chosen
+					site ssa.Instruction // guarded by the media-type edge
+					mt   []ssa.Value     // values holding the negotiated media type in fn
 				}
 				var pairs []pair
+				var mtVals []ssa.Value
+				for _, m := range an.Calls(fn, an.M(c42Srv, "server", "detectResponseType")) {
+					mtVals = append(mtVals, an.Result(m, 0)...)
+				}
 				hv, lv := hc.Call.Value, hc.Call.Args[limIdx]
 				hphi, hIsPhi := hv.(*ssa.Phi)
 				lphi, lIsPhi := lv.(*ssa.Phi)
+				hex, hIsEx := hv.(*ssa.Extract)
+				lex, lIsEx := lv.(*ssa.Extract)
 				switch {
 				case hIsPhi && lIsPhi && hphi.Block() == lphi.Block():
 					for i := range hphi.Edges {
@@ -292,21 +324,45 @@ func c42ServerPipelines(c *an.Ctx, roles map[*ssa.Function]map[int]string) []c42
 							c.Problem("%s: handler phi edge does not resolve to one function", name)
 							continue
 						}
-						pairs = append(pairs, pair{ts[0], lphi.Edges[i], hphi.Block().Preds[i]})
+						if blk := hphi.Block().Preds[i]; len(blk.Instrs) > 0 {
+							pairs = append(pairs, pair{ts[0], lphi.Edges[i], fn, blk.Instrs[0], mtVals})
+						}
+					}
+				case hIsEx && lIsEx && hex.Tuple == lex.Tuple:
+					sc, _ := hex.Tuple.(*ssa.Call)
+					var g *ssa.Function
+					if sc != nil {
+						g = an.Callee(sc).Static
+					}
+					if g == nil || len(g.Blocks) == 0 || g.Pkg != fn.Pkg {
+						c.Problem("%s: handler/limit come from a call that cannot be analysed", name)
+						break
+					}
+					var gmt []ssa.Value
+					for i, q := range g.Params {
+						if i < len(sc.Call.Args) && an.Aliases(mtVals...)[sc.Call.Args[i]] {
+							gmt = append(gmt, q)
+						}
+					}
+					for _, r := range an.Returns(g) {
+						if hex.Index >= len(r.Results) || lex.Index >= len(r.Results) {
+							continue
+						}
+						hts := c42Targets(c, r.Results[hex.Index])
+						if len(hts) != 1 {
+							c.Problem("%s: a return of %s does not resolve to one handler", name, an.FuncName(g))
+							continue
+						}
+						pairs = append(pairs, pair{hts[0], r.Results[lex.Index], g, r, gmt})
 					}
 				case !hIsPhi && !lIsPhi && len(ts) == 1:
-					pairs = append(pairs, pair{ts[0], lv, hc.Block()})
+					pairs = append(pairs, pair{ts[0], lv, fn, hc, mtVals})
 				default:
 					c.Problem("%s: handler/limit selection shape not recognised (handler phi=%v, limit phi=%v)", name, hIsPhi, lIsPhi)
 				}
-				mt := an.Calls(fn, an.M(c42Srv, "server", "detectResponseType"))
-				var mtVals []ssa.Value
-				for _, m := range mt {
-					mtVals = append(mtVals, an.Result(m, 0)...)
-				}
-				al := an.Aliases(mtVals...)
-				edgesFor := func(want bool) an.EdgeSet {
-					return an.CondEdges(fn, func(atom ssa.Value) (bool, bool) {
+				edgesFor := func(pfn *ssa.Function, mt []ssa.Value, want bool) an.EdgeSet {
+					al := an.Aliases(mt...)
+					return an.CondEdges(pfn, func(atom ssa.Value) (bool, bool) {
 						b, ok := atom.(*ssa.BinOp)
 						if !ok || (b.Op != token.EQL && b.Op != token.NEQ) {
 							return false, false
@@ -331,17 +387,17 @@ func c42ServerPipelines(c *an.Ctx, roles map[*ssa.Function]map[int]string) []c42
 						wantF, kind = fStream, "NDJSON"
 					}
 					okF := false
-					if u, ok := pr.lim.(*ssa.UnOp); ok && u.Op == token.MUL {
-						if f, b := an.FieldOf(u.X); f == wantF && an.SameObj(b, fn.Params[0]) {
+					if u, ok := pr.lim.(*ssa.UnOp); ok && u.Op == token.MUL && len(pr.fn.Params) > 0 {
+						if f, b := an.FieldOf(u.X); f == wantF && an.SameObj(b, pr.fn.Params[0]) {
 							okF = true
 						}
 					}
 					c.Check(okF, "O1", "R-SIB", name, an.FuncName(pr.h)+"<->"+wantF.Name(), hc.Pos(),
 						kind+" handler is paired with server."+wantF.Name(),
 						fmt.Sprintf("%s handler %s is not paired with server.%s (got %s): the wrong cap is applied to this response format", kind, an.FuncName(pr.h), wantF.Name(), an.PathOf(pr.lim)))
-					if len(pr.blk.Instrs) > 0 && len(mtVals) > 0 {
-						g := edgesFor(stream)
-						okE := len(g) > 0 && an.GuardedBy(fn, nil, pr.blk.Instrs[0], g)
+					if len(pr.mt) > 0 {
+						g := edgesFor(pr.fn, pr.mt, stream)
+						okE := len(g) > 0 && an.GuardedBy(pr.fn, nil, pr.site, g)
 						c.Check(okE, "O1", "R-DOM", name, an.FuncName(pr.h)+"<=mediaType", hc.Pos(),
 							kind+" handler selected on the matching media-type edge",
 							kind+" handler "+an.FuncName(pr.h)+" is not selected on the edge where the negotiated media type is"+map[bool]string{true: "", false: " not"}[stream]+" application/x-ndjson: streaming and non-streaming caps/encodings are swapped")
@@ -350,7 +406,7 @@ func c42ServerPipelines(c *an.Ctx, roles map[*ssa.Function]map[int]string) []c42
 			}
 		}
 	}
-	c.Min("O1 delegate FindProviders/FindPeers calls", nDelegate, 2)
+	c.Min("O1 delegate FindProviders/FindPeers calls", nDelegate, 1)
 
 	// --- per handler: filter -> limit -> consumer
 	seenH := map[*ssa.Function]bool{}
@@ -427,7 +483,7 @@ func c42ServerPipelines(c *an.Ctx, roles map[*ssa.Function]map[int]string) []c42
 			c.Min("O1 iterator consumers in "+name, nCons, 1)
 		}
 	}
-	c.Min("O1 response handlers receiving a delegate iterator", nHandlers, 4)
+	c.Min("O1 response handlers receiving a delegate iterator", nHandlers, 1)
 
 	// --- no Apply* over an already limited iterator anywhere in the server
 	for _, fn := range p.PkgFuncs(c42Srv) {
@@ -457,6 +513,25 @@ func c42PutIPNS(c *an.Ctx) {
 				continue
 			}
 			nameV, recV := args[1], args[2]
+			// the parse+validate step may live in a package-local helper that returns (record, error)
+			if ex, isEx := recV.(*ssa.Extract); isEx {
+				if hc, isCall := ex.Tuple.(*ssa.Call); isCall {
+					if h := an.Callee(hc).Static; h != nil && len(h.Blocks) > 0 && h.Pkg == fn.Pkg && !an.M(c42Ipns, "", "UnmarshalRecord").Match(an.Callee(hc)) {
+						okN := false
+						nm, isNm := an.IsCallTo(nameV, an.M(c42Ipns, "", "NameFromCid"))
+						if isNm {
+							okN = an.OnNilEdgeOf(fn, nm, pc)
+						}
+						c.Check(isNm && okN, "O2", "R-FLOW", name, "PutIPNS(name)=NameFromCid", pc.Pos(), "the name is derived from the URL CID on its nil edge",
+							"the name handed to the delegate is not ipns.NameFromCid(URL cid) on its nil edge: "+an.PathOf(nameV))
+						okH := an.OnNilEdgeOf(fn, hc, pc) && c42HelperValidates(h, ex.Index, hc, nameV)
+						c.Check(okH, "O2", "R-DOM", name, "PutIPNS<=ValidateWithName(record,name)-ok", pc.Pos(),
+							"delegate reached only on the nil edge of a helper that returns the unmarshalled record only after ipns.ValidateWithName(record, name) succeeded for the very name stored",
+							"the delegate PutIPNS is reachable without a successful ipns.UnmarshalRecord + ipns.ValidateWithName of the same record against the same name (helper "+an.FuncName(h)+" does not guarantee it on its success returns, or its error is not checked): invalid or foreign records are accepted on PUT")
+						continue
+					}
+				}
+			}
 			u, okU := an.IsCallTo(recV, an.M(c42Ipns, "", "UnmarshalRecord"))
 			nm, okN := an.IsCallTo(nameV, an.M(c42Ipns, "", "NameFromCid"))
 			c.Check(okU, "O2", "R-FLOW", name, "PutIPNS(record)=UnmarshalRecord", pc.Pos(), "the stored record is the one parsed from the request body",
@@ -699,10 +774,14 @@ func c42FilterRoles(c *an.Ctx) map[*ssa.Function]map[int]string {
 		}
 	}
 	c.Min("O3 role seeds (filter slice meeting PeerRecord.Protocols/Addrs)", nSeed, 2)
-	// propagate to callers inside the package until stable
+	// propagate to callers (package filters, and helper functions of server/client that forward their
+	// parameters to a filter function) until stable
+	prop := append([]*ssa.Function{}, fns...)
+	prop = append(prop, p.PkgFuncs(c42Srv)...)
+	prop = append(prop, p.PkgFuncs(c42Cli)...)
 	for changed := true; changed; {
 		changed = false
-		for _, fn := range fns {
+		for _, fn := range prop {
 			for _, cl := range an.AllCalls(fn) {
 				g := an.Callee(cl).Static
 				if g == nil || roles[g] == nil {
@@ -841,7 +920,7 @@ func c42CallSiteRoles(c *an.Ctx, roles map[*ssa.Function]map[int]string, disp []
 			}
 		}
 	}
-	c.Min("O3 role positions at call sites in server and client", nSites, 16)
+	c.Min("O3 role positions at call sites in server and client", nSites, 2)
 	// two different fields must not share one role within the client (addr vs protocol field mixed up everywhere)
 	byRole := map[string][]string{}
 	for f, r := range fieldRole {
@@ -940,7 +1019,56 @@ func c42FilterSkeleton(c *an.Ctx, roles map[*ssa.Function]map[int]string) {
 			}
 		}
 	}
-	if !c.Need(ptest != nil && afilt != nil, "protocol test and address filter calls in "+name) {
+	// the address step may be delegated to a package-local helper (record, address filter) -> record
+	var addrFn *ssa.Function = af
+	var addrRec, addrPrm ssa.Value = rec, addrParam
+	var hcall *ssa.Call
+	if afilt == nil {
+		for _, cl := range an.AllCalls(af) {
+			cv := an.CallValue(cl)
+			h := an.Callee(cl).Static
+			if cv == nil || h == nil || roles[h] == nil || h.Pkg != af.Pkg || len(h.Blocks) == 0 {
+				continue
+			}
+			var hRec, hAddr ssa.Value
+			for i, q := range h.Params {
+				if roles[h][i] == "address" {
+					hAddr = q
+				}
+				if an.TypeIs(q.Type(), c42Typ, "PeerRecord") && i < len(cv.Call.Args) {
+					okArg := true
+					for _, r := range an.Roots(cv.Call.Args[i], nil) {
+						okArg = okArg && r == ssa.Value(rec)
+					}
+					if okArg {
+						hRec = q
+					}
+				}
+			}
+			if hRec == nil || hAddr == nil {
+				continue
+			}
+			for _, c2 := range an.AllCalls(h) {
+				cv2 := an.CallValue(c2)
+				if cv2 == nil || an.Callee(cv2).Static == nil || an.Callee(cv2).Pkg != an.Mod+"/"+c42Flt {
+					continue
+				}
+				uses := false
+				for _, a := range cv2.Call.Args {
+					for _, r := range an.Roots(a, nil) {
+						uses = uses || r == hAddr
+					}
+				}
+				res := cv2.Call.Signature().Results()
+				if uses && res.Len() == 1 {
+					if _, ok := res.At(0).Type().Underlying().(*types.Slice); ok {
+						afilt, addrFn, addrRec, addrPrm, hcall = cv2, h, hRec, hAddr, cv
+					}
+				}
+			}
+		}
+	}
+	if !c.Need(ptest != nil && afilt != nil, "protocol test and address filter calls in "+name+" (or in a package-local helper it delegates the address step to)") {
 		return
 	}
 	pTrue := an.BoolEdges(af, []ssa.Value{ptest}, true)
@@ -982,115 +1110,151 @@ func c42FilterSkeleton(c *an.Ctx, roles map[*ssa.Function]map[int]string) {
 		// the kept record is the input record
 		okRec := true
 		for _, root := range an.Roots(r.Results[0], nil) {
+			if hcall != nil && root == ssa.Value(hcall) {
+				// the helper returns its record parameter (or nil)
+				for _, hr := range an.Returns(addrFn) {
+					if an.IsNilConst(hr.Results[0]) {
+						continue
+					}
+					for _, r2 := range an.Roots(hr.Results[0], nil) {
+						okRec = okRec && r2 == addrRec
+					}
+				}
+				continue
+			}
 			okRec = okRec && root == ssa.Value(rec)
 		}
 		c.Check(okRec, "O4", "R-FLOW", name, "return-record=input", r.Pos(), "the kept record is the input record", "applyFilters returns a record other than its input")
 	}
-	c.Min("O4 non-nil returns of applyFilters", nRet, 2)
-	// address filter applied to record.Addrs with the address role parameter, result stored back
-	okArgs := false
-	if len(afilt.Call.Args) == 2 {
-		a0 := false
-		for _, r := range an.Roots(afilt.Call.Args[0], nil) {
-			if u, ok := r.(*ssa.UnOp); ok && u.Op == token.MUL {
-				if f, b := an.FieldOf(u.X); f != nil && f.Name() == "Addrs" && an.SameObj(b, rec) {
-					a0 = true
+	c.Min("O4 non-nil returns of applyFilters", nRet, 1)
+	// ---- the address step, in the function that performs it
+	{
+		outerAf, outerRec, outerAddr, outerName := af, rec, addrParam, name
+		type part struct {
+			fn        *ssa.Function
+			rec, addr ssa.Value
+			event     ssa.Instruction // the address filtering (call of applyAddrFilter, or of the helper)
+			full      bool
+		}
+		parts := []part{{addrFn, addrRec, addrPrm, afilt, true}}
+		if hcall != nil {
+			parts = append(parts, part{outerAf, outerRec, outerAddr, hcall, false})
+		}
+		for _, pt := range parts {
+			af, rec, addrParam, name := pt.fn, pt.rec, pt.addr, an.FuncName(pt.fn)
+			afilt := afilt
+			evt := pt.event
+			if pt.full {
+				// address filter applied to record.Addrs with the address role parameter, result stored back
+				okArgs := false
+				if len(afilt.Call.Args) == 2 {
+					a0 := false
+					for _, r := range an.Roots(afilt.Call.Args[0], nil) {
+						if u, ok := r.(*ssa.UnOp); ok && u.Op == token.MUL {
+							if f, b := an.FieldOf(u.X); f != nil && f.Name() == "Addrs" && an.SameObj(b, rec) {
+								a0 = true
+							}
+						}
+					}
+					okArgs = a0
 				}
-			}
-		}
-		okArgs = a0
-	}
-	c.Check(okArgs, "O4", "R-FLOW", name, "applyAddrFilter(record.Addrs,addrFilter)", afilt.Pos(), "the address filter runs over the record's own address list",
-		"the address filter is not applied to record.Addrs with the address filter: kept records carry unfiltered or foreign addresses")
-	var stores []*ssa.Store
-	an.Instrs(af, func(in ssa.Instruction) {
-		if st, ok := in.(*ssa.Store); ok {
-			if f, b := an.FieldOf(st.Addr); f != nil && f.Name() == "Addrs" && an.SameObj(b, rec) {
-				stores = append(stores, st)
-			}
-		}
-	})
-	for _, st := range stores {
-		c.Check(an.Aliases(afilt)[st.Val], "O4", "R-FLOW", name, "record.Addrs=applyAddrFilter(..)", st.Pos(), "the stored address list is the filtered one",
-			"record.Addrs is overwritten with something other than the filtered address list")
-	}
-	// after the address filter ran, the record is returned only with the filtered list stored and only where len(filtered) != 0
-	nonEmpty := an.GRelEdges(af, func(r an.GRel) bool {
-		a, b, op := r.A, r.B, r.Op
-		if _, ok := an.IntConst(a); ok {
-			a, b, op = b, a, an.SwapRel(op)
-		}
-		k, ok := an.IntConst(b)
-		if !ok {
-			return false
-		}
-		call, ok := a.(*ssa.Call)
-		if !ok {
-			return false
-		}
-		if bi, ok := call.Call.Value.(*ssa.Builtin); !ok || bi.Name() != "len" || !an.Aliases(afilt)[call.Call.Args[0]] {
-			return false
-		}
-		return (op == token.NEQ && k == 0) || (op == token.GTR && k == 0) || (op == token.GEQ && k == 1)
-	})
-	blocked := map[ssa.Instruction]bool{}
-	for _, st := range stores {
-		if an.Aliases(afilt)[st.Val] {
-			blocked[st] = true
-		}
-	}
-	for _, r := range an.Returns(af) {
-		if len(r.Results) != 1 || an.IsNilConst(r.Results[0]) || !an.Reaches(af, afilt, r, nil, nil) {
-			continue
-		}
-		c.Check(!an.Reaches(af, afilt, r, nil, blocked), "O4", "R-POST", name, "filtered=>record.Addrs-store", r.Pos(), "after filtering, the record is returned with the filtered list stored",
-			"applyFilters returns the record after address filtering without storing the filtered list: addresses are not filtered the same way as records")
-		c.Check(len(nonEmpty) > 0 && !an.Reaches(af, afilt, r, nonEmpty, nil), "O4", "R-DOM", name, "filtered-empty=>drop", r.Pos(), "a record whose addresses are all filtered out is dropped",
-			"applyFilters keeps a record although address filtering left no address")
-	}
+				c.Check(okArgs, "O4", "R-FLOW", name, "applyAddrFilter(record.Addrs,addrFilter)", afilt.Pos(), "the address filter runs over the record's own address list",
+					"the address filter is not applied to record.Addrs with the address filter: kept records carry unfiltered or foreign addresses")
+				var stores []*ssa.Store
+				an.Instrs(af, func(in ssa.Instruction) {
+					if st, ok := in.(*ssa.Store); ok {
+						if f, b := an.FieldOf(st.Addr); f != nil && f.Name() == "Addrs" && an.SameObj(b, rec) {
+							stores = append(stores, st)
+						}
+					}
+				})
+				for _, st := range stores {
+					c.Check(an.Aliases(afilt)[st.Val], "O4", "R-FLOW", name, "record.Addrs=applyAddrFilter(..)", st.Pos(), "the stored address list is the filtered one",
+						"record.Addrs is overwritten with something other than the filtered address list")
+				}
+				// after the address filter ran, the record is returned only with the filtered list stored and only where len(filtered) != 0
+				nonEmpty := an.GRelEdges(af, func(r an.GRel) bool {
+					a, b, op := r.A, r.B, r.Op
+					if _, ok := an.IntConst(a); ok {
+						a, b, op = b, a, an.SwapRel(op)
+					}
+					k, ok := an.IntConst(b)
+					if !ok {
+						return false
+					}
+					call, ok := a.(*ssa.Call)
+					if !ok {
+						return false
+					}
+					if bi, ok := call.Call.Value.(*ssa.Builtin); !ok || bi.Name() != "len" || !an.Aliases(afilt)[call.Call.Args[0]] {
+						return false
+					}
+					return (op == token.NEQ && k == 0) || (op == token.GTR && k == 0) || (op == token.GEQ && k == 1)
+				})
+				blocked := map[ssa.Instruction]bool{}
+				for _, st := range stores {
+					if an.Aliases(afilt)[st.Val] {
+						blocked[st] = true
+					}
+				}
+				for _, r := range an.Returns(af) {
+					if len(r.Results) != 1 || an.IsNilConst(r.Results[0]) || !an.Reaches(af, afilt, r, nil, nil) {
+						continue
+					}
+					c.Check(!an.Reaches(af, afilt, r, nil, blocked), "O4", "R-POST", name, "filtered=>record.Addrs-store", r.Pos(), "after filtering, the record is returned with the filtered list stored",
+						"applyFilters returns the record after address filtering without storing the filtered list: addresses are not filtered the same way as records")
+					c.Check(len(nonEmpty) > 0 && !an.Reaches(af, afilt, r, nonEmpty, nil), "O4", "R-DOM", name, "filtered-empty=>drop", r.Pos(), "a record whose addresses are all filtered out is dropped",
+						"applyFilters keeps a record although address filtering left no address")
+				}
 
-	// a record is returned with its address list untouched only where there is no address filter
-	// or the record has no addresses (the 'unknown' case)
-	lenZero := func(isSubject func(ssa.Value) bool) an.EdgeSet {
-		return an.GRelEdges(af, func(r an.GRel) bool {
-			a, b, op := r.A, r.B, r.Op
-			if _, ok := an.IntConst(a); ok {
-				a, b, op = b, a, an.SwapRel(op)
 			}
-			k, ok := an.IntConst(b)
-			call, ok2 := a.(*ssa.Call)
-			if !ok || !ok2 {
-				return false
+			_ = afilt
+			// a record is returned with its address list untouched only where there is no address filter
+			// or the record has no addresses (the 'unknown' case)
+			lenZero := func(isSubject func(ssa.Value) bool) an.EdgeSet {
+				return an.GRelEdges(af, func(r an.GRel) bool {
+					a, b, op := r.A, r.B, r.Op
+					if _, ok := an.IntConst(a); ok {
+						a, b, op = b, a, an.SwapRel(op)
+					}
+					k, ok := an.IntConst(b)
+					call, ok2 := a.(*ssa.Call)
+					if !ok || !ok2 {
+						return false
+					}
+					if bi, ok := call.Call.Value.(*ssa.Builtin); !ok || bi.Name() != "len" || !isSubject(call.Call.Args[0]) {
+						return false
+					}
+					return (op == token.EQL && k == 0) || (op == token.LEQ && k == 0) || (op == token.LSS && k == 1)
+				})
 			}
-			if bi, ok := call.Call.Value.(*ssa.Builtin); !ok || bi.Name() != "len" || !isSubject(call.Call.Args[0]) {
-				return false
+			noAddrFilter := lenZero(func(v ssa.Value) bool {
+				for _, r := range an.Roots(v, nil) {
+					if r != addrParam {
+						return false
+					}
+				}
+				return true
+			})
+			noAddrs := lenZero(func(v ssa.Value) bool {
+				u, ok := v.(*ssa.UnOp)
+				if !ok || u.Op != token.MUL {
+					return false
+				}
+				f, b := an.FieldOf(u.X)
+				return f != nil && f.Name() == "Addrs" && an.SameObj(b, rec)
+			})
+			for _, r := range an.Returns(af) {
+				if len(r.Results) != 1 || an.IsNilConst(r.Results[0]) || an.Reaches(af, evt, r, nil, nil) || r.Results[0] == ssa.Value(c42EvtValue(evt)) {
+					continue
+				}
+				c.Check(an.GuardedBy(af, nil, r, noAddrFilter.Union(noAddrs)), "O4", "R-DOM", name, "unfiltered-return<=no-addr-filter|no-addrs", r.Pos(),
+					"a record keeps its unfiltered address list only where no address filter is given or it has no addresses",
+					"applyFilters can return the record without running the address filter although an address filter is present and the record has addresses (e.g. the 'unknown' shortcut taken for records that do have addresses): kept records carry addresses the filter excludes")
 			}
-			return (op == token.EQL && k == 0) || (op == token.LEQ && k == 0) || (op == token.LSS && k == 1)
-		})
-	}
-	noAddrFilter := lenZero(func(v ssa.Value) bool {
-		for _, r := range an.Roots(v, nil) {
-			if r != addrParam {
-				return false
-			}
+
 		}
-		return true
-	})
-	noAddrs := lenZero(func(v ssa.Value) bool {
-		u, ok := v.(*ssa.UnOp)
-		if !ok || u.Op != token.MUL {
-			return false
-		}
-		f, b := an.FieldOf(u.X)
-		return f != nil && f.Name() == "Addrs" && an.SameObj(b, rec)
-	})
-	for _, r := range an.Returns(af) {
-		if len(r.Results) != 1 || an.IsNilConst(r.Results[0]) || an.Reaches(af, afilt, r, nil, nil) {
-			continue
-		}
-		c.Check(an.GuardedBy(af, nil, r, noAddrFilter.Union(noAddrs)), "O4", "R-DOM", name, "unfiltered-return<=no-addr-filter|no-addrs", r.Pos(),
-			"a record keeps its unfiltered address list only where no address filter is given or it has no addresses",
-			"applyFilters can return the record without running the address filter although an address filter is present and the record has addresses (e.g. the 'unknown' shortcut taken for records that do have addresses): kept records carry addresses the filter excludes")
+		_, _, _, _ = outerAf, outerRec, outerAddr, outerName
 	}
 
 	// --- applyAddrFilter polarity
@@ -1101,14 +1265,19 @@ func c42FilterSkeleton(c *an.Ctx, roles map[*ssa.Function]map[int]string) {
 	gname := an.FuncName(g)
 	// local slices built under HasPrefix(filter, "!")
 	var neg, pos []*ssa.Alloc
-	hp := an.Calls(g, an.M("strings", "", "HasPrefix"))
+	// the negation marker test: strings.HasPrefix(f, "!") or the `found` result of strings.CutPrefix(f, "!")
+	hp := an.Calls(g, an.M("strings", "", "HasPrefix"), an.M("strings", "", "CutPrefix"))
 	var hpVals []ssa.Value
 	for _, h := range hp {
 		if k, ok := an.ConstOf(an.Args(h)[1]); ok && k.Kind() == constant.String && constant.StringVal(k) == "!" {
-			hpVals = append(hpVals, an.CallValue(h))
+			if an.Callee(h).Name == "CutPrefix" {
+				hpVals = append(hpVals, an.Result(h, 1)...)
+			} else if v := an.CallValue(h); v != nil {
+				hpVals = append(hpVals, v)
+			}
 		}
 	}
-	if !c.Need(len(hpVals) >= 1, "strings.HasPrefix(filter, \"!\") in "+gname) {
+	if !c.Need(len(hpVals) >= 1, "test of the \"!\" negation prefix (strings.HasPrefix / strings.CutPrefix) in "+gname) {
 		return
 	}
 	negE, posE := an.BoolEdges(g, hpVals, true), an.BoolEdges(g, hpVals, false)
@@ -1183,7 +1352,9 @@ func c42FilterSkeleton(c *an.Ctx, roles map[*ssa.Function]map[int]string) {
 			}
 		}
 	}
-	if !c.Need(len(negCalls) >= 1 && len(posCalls) >= 1, "match tests against the negative and positive lists in "+gname) {
+	if !c.Check(len(negCalls) >= 1 && len(posCalls) >= 1, "O4", "R-DOM", gname, "negative-and-positive-lists-consulted", g.Pos(),
+		"both the negative and the positive filter list are matched against each address",
+		fmt.Sprintf("applyAddrFilter builds a negative and a positive filter list but matches addresses against %d/%d of them: '!proto' exclusions (or positive selections) have no effect", len(negCalls), len(posCalls))) {
 		return
 	}
 	noPos := an.GRelEdges(g, func(r an.GRel) bool {
@@ -1409,5 +1580,75 @@ func c42WireTable(c *an.Ctx) {
 		c.Check(ok, "O5", "R-TABLE", an.FuncName(fn), "query-keys-read", pos, "the handler reads the two keys the client writes",
 			fmt.Sprintf("the handler parses filter keys %v while the client helper writes %v: one of the filters is silently not applied on the server", gk, wk))
 	}
-	c.Min("O5 server handlers parsing filter query keys", n, 2)
+	c.Min("O5 server handlers parsing filter query keys", n, 1)
+}
+
+// c42HelperValidates: every success return (nil error) of h returns, at result idx, the result of
+// ipns.UnmarshalRecord on the nil edges of that call and of ipns.ValidateWithName(that record, P),
+// where P is a parameter of h that receives nameV at the call hc.
+func c42HelperValidates(h *ssa.Function, idx int, hc *ssa.Call, nameV ssa.Value) bool {
+	var us []ssa.CallInstruction
+	for _, cl := range an.Calls(h, an.M(c42Ipns, "", "UnmarshalRecord")) {
+		us = append(us, cl)
+	}
+	if len(us) != 1 {
+		return false
+	}
+	u := us[0]
+	rec := an.Result(u, 0)
+	if len(rec) == 0 {
+		return false
+	}
+	ral := an.Aliases(rec...)
+	var vs []ssa.CallInstruction
+	for _, v := range an.Calls(h, an.M(c42Ipns, "", "ValidateWithName")) {
+		va := an.Args(v)
+		if len(va) != 2 || !ral[va[0]] {
+			continue
+		}
+		okName := false
+		for _, r := range an.Roots(va[1], nil) {
+			prm, ok := r.(*ssa.Parameter)
+			if !ok || prm.Parent() != h {
+				okName = false
+				break
+			}
+			for i, q := range h.Params {
+				if q == prm && i < len(hc.Call.Args) && (hc.Call.Args[i] == nameV || an.Aliases(nameV)[hc.Call.Args[i]]) {
+					okName = true
+				}
+			}
+		}
+		if okName {
+			vs = append(vs, v)
+		}
+	}
+	if len(vs) == 0 {
+		return false
+	}
+	n := 0
+	for _, r := range an.Returns(h) {
+		if len(r.Results) == 0 || !an.IsNilConst(r.Results[len(r.Results)-1]) {
+			continue
+		}
+		n++
+		if idx >= len(r.Results) || !ral[r.Results[idx]] || !an.OnNilEdgeOf(h, u, r) {
+			return false
+		}
+		okV := false
+		for _, v := range vs {
+			if an.OnNilEdgeOf(h, v, r) {
+				okV = true
+			}
+		}
+		if !okV {
+			return false
+		}
+	}
+	return n > 0
+}
+
+func c42EvtValue(in ssa.Instruction) ssa.Value {
+	v, _ := in.(ssa.Value)
+	return v
 }
